@@ -106,7 +106,9 @@ pub fn par_map<T: Sync, R: Send>(items: &[T], f: impl Fn(usize, &T) -> R + Sync)
                 if i >= items.len() {
                     break;
                 }
+                crate::watch::begin(mdv_core::json!({"work_item": i, "of": items.len()}));
                 let r = f(i, &items[i]);
+                crate::watch::end();
                 out.lock().unwrap()[i] = Some(r);
             });
         }
